@@ -130,7 +130,7 @@ macro_rules! neg_traits {
             #[endpoint(method = POST, path = "/v/safeBody", accept = Neg<$k, false>)]
             fn safe_body(&self, #[body] b: i32) -> Result<i32, conjure_error::Error>;
             #[endpoint(method = POST, path = "/v/body", accept = Neg<$k, false>)]
-            fn body(&self, #[auth(cookie_name = "sess")] auth: &BearerToken, #[body] b: &Simple) -> Result<Simple, conjure_error::Error>;
+            fn body(&self, #[auth(cookie_name = "Sess_Tok")] auth: &BearerToken, #[body] b: &Simple) -> Result<Simple, conjure_error::Error>;
             #[endpoint(method = GET, path = "/v/dblRet", accept = Neg<$k, false>)]
             fn dbl_ret(&self, #[query(name = "the-x")] x: &str, #[query(name = "w+k&=%", encoder = conjure_http::client::DisplaySeqEncoder)] weird: Option<&str>) -> Result<Doubles, conjure_error::Error>;
             #[endpoint(method = GET, path = "/v/listAliasRet", accept = Neg<$k, true>)]
@@ -147,7 +147,7 @@ macro_rules! neg_traits {
             #[endpoint(method = POST, path = "/v/safeBody", accept = Neg<$k, false>)]
             async fn safe_body(&self, #[body] b: i32) -> Result<i32, conjure_error::Error>;
             #[endpoint(method = POST, path = "/v/body", accept = Neg<$k, false>)]
-            async fn body(&self, #[auth(cookie_name = "sess")] auth: &BearerToken, #[body] b: &Simple) -> Result<Simple, conjure_error::Error>;
+            async fn body(&self, #[auth(cookie_name = "Sess_Tok")] auth: &BearerToken, #[body] b: &Simple) -> Result<Simple, conjure_error::Error>;
             #[endpoint(method = GET, path = "/v/dblRet", accept = Neg<$k, false>)]
             async fn dbl_ret(&self, #[query(name = "the-x")] x: &str, #[query(name = "w+k&=%", encoder = conjure_http::client::DisplaySeqEncoder)] weird: Option<&str>) -> Result<Doubles, conjure_error::Error>;
             #[endpoint(method = GET, path = "/v/listAliasRet", accept = Neg<$k, true>)]
